@@ -38,7 +38,7 @@ def run(ctx):
     deductive.run_for(ctx, 'C10')
     rng = random.Random(ctx.seed * 19 + 10)
     thorough = ctx.tier == 'thorough'
-    ps = lang_scope.pools(rng, cap=400, depth=2, extra_random=100, rdepth=4)
+    ps = lang_scope.pools(rng, cap=400, depth=2, extra_random=100, rdepth=4, names=False)
     valid = {}
     for logic, pool in ps.items():
         pool = rng.sample(pool, min(len(pool), 400 if not thorough else 2000))
